@@ -82,6 +82,12 @@ var (
 	quantum  [MaxTasks + 1]int64
 	spinRun  [MaxTasks + 1]int64
 	lockDepth [MaxTasks + 1]int64 // library locks held by the task (LockAcquired / LockReleasing)
+	pendDefer [MaxTasks + 1]int64 // deferred Unlock calls of the task that have not run yet
+	// per task, mutex and side (write / read): locks held and deferred Unlocks pending. Plain
+	// arrays on purpose: Go maps call the race detector from inside the runtime, which would
+	// make the simulator's own bookkeeping look like shared-memory traffic of the library.
+	lockBook [MaxTasks + 1][maxLockBook]lockEntry
+	writersWaiting [maxLockBook]lockEntry // RWMutex -> tasks waiting in Lock (writer preference); held = count
 	prio     [MaxTasks + 1]int64
 	lowPrio  int64
 	chg      [8]int64 // PCT change points / preemption countdowns
@@ -319,21 +325,92 @@ func handoff(me, n int64, site int) {
 		runtime.Gosched()
 	}
 	if OverBudget != 0 {
-		if lockDepth[me] > 0 {
-			return // runs on until it has released the library's lock (see yield)
+		if !stoppable(me) {
+			return // runs on until a panic can unwind it cleanly (see yield)
 		}
 		panic(Abort{me, 2})
 	}
 	if Deadlock != 0 {
-		if lockDepth[me] > 0 {
-			Tainted = 1
-		}
-		panic(Abort{me, 3})
+		stop(me, 3)
 	}
+}
+
+const maxLockBook = 24
+
+type lockEntry struct {
+	mu         interface{}
+	read       int
+	held, pend int
+}
+
+// book returns the entry of (mu, read) in the task's book, creating it if asked to.
+//
+//go:norace
+func book(me int64, mu interface{}, read int, create bool) *lockEntry {
+	var free *lockEntry
+	for i := range lockBook[me] {
+		e := &lockBook[me][i]
+		if e.mu == mu && e.read == read {
+			return e
+		}
+		if e.mu == nil && free == nil {
+			free = e
+		}
+	}
+	if create && free != nil {
+		free.mu, free.read, free.held, free.pend = mu, read, 0, 0
+		return free
+	}
+	return nil
 }
 
 // graceSteps: how far beyond the step budget a task may run on to release a lock it holds.
 const graceSteps = 200000
+
+// AbandonHook is set by the harness: a task that cannot be stopped by a panic (its deferred
+// Unlock would hit a mutex it does not hold at this point) is parked for good instead; the
+// hook tells the harness that the task will never return.
+var AbandonHook func(id int64, why int64)
+
+// stoppable: every lock the task holds is covered by a deferred Unlock and every pending
+// deferred Unlock has its lock taken - a panic unwinds to a consistent state.
+//
+//go:norace
+func stoppable(me int64) bool {
+	if lockDepth[me] != pendDefer[me] {
+		return false
+	}
+	for i := range lockBook[me] {
+		if e := &lockBook[me][i]; e.mu != nil && e.held != e.pend {
+			return false
+		}
+	}
+	return true
+}
+
+// stop ends the task for good: by a panic where that is safe, by parking it otherwise.
+//
+//go:norace
+func stop(me int64, why int64) {
+	if stoppable(me) {
+		panic(Abort{me, why})
+	}
+	Tainted = 1
+	misfire := false // some deferred Unlock would hit a mutex side the task does not hold
+	for i := range lockBook[me] {
+		if e := &lockBook[me][i]; e.mu != nil && e.held < e.pend {
+			misfire = true
+		}
+	}
+	if !misfire || AbandonHook == nil {
+		panic(Abort{me, why}) // a lock stays taken; no deferred Unlock can misfire
+	}
+	// fewer locks held than deferred Unlocks pending: unwinding would unlock a free mutex
+	// (a fatal runtime error). Park the goroutine for good.
+	Finish(me)
+	AbandonHook(me, why)
+	select {}
+}
 
 //go:norace
 func yield(site int, forced bool) {
@@ -356,23 +433,17 @@ func yield(site int, forced bool) {
 		// would stay taken for the rest of the process): it runs on, alone, until it has
 		// released it - unless it is itself waiting for a lock (forced) or does not get
 		// there within a grace budget, in which case the process is marked tainted
-		if lockDepth[me] > 0 && !forced && Steps <= stepCap+graceSteps {
+		if !stoppable(me) && !forced && Steps <= stepCap+graceSteps {
 			return
 		}
-		if lockDepth[me] > 0 {
-			Tainted = 1
-		}
-		panic(Abort{me, 2})
+		stop(me, 2)
 	}
 	if forced {
 		SpinTotal++
 		spinRun[me]++
 		if spinRun[me] > SpinCap {
 			Deadlock = 1
-			if lockDepth[me] > 0 {
-				Tainted = 1
-			}
-			panic(Abort{me, 3})
+			stop(me, 3)
 		}
 	} else {
 		spinRun[me] = 0
@@ -388,17 +459,87 @@ func yield(site int, forced bool) {
 // (inserted by the instrumenter after a TryLock loop and before every Unlock).
 //
 //go:norace
-func LockAcquired() {
+func LockAcquired(mu interface{}, read int) {
 	if rawLoad(&active) != 0 && current != 0 {
 		lockDepth[current]++
+		if e := book(current, mu, read, true); e != nil {
+			e.held++
+		}
 	}
 }
 
 //go:norace
-func LockReleasing() {
+func LockReleasing(mu interface{}, read int) {
 	if rawLoad(&active) != 0 && current != 0 && lockDepth[current] > 0 {
 		lockDepth[current]--
+		if e := book(current, mu, read, false); e != nil && e.held > 0 {
+			e.held--
+			if e.held == 0 && e.pend == 0 {
+				e.mu = nil
+			}
+		}
 	}
+}
+
+// DeferredUnlock counts the task's registered, not yet executed deferred Unlock calls.
+//
+//go:norace
+func DeferredUnlock(mu interface{}, read int, d int) {
+	if rawLoad(&active) != 0 && current != 0 {
+		pendDefer[current] += int64(d)
+		if pendDefer[current] < 0 {
+			pendDefer[current] = 0
+		}
+		if e := book(current, mu, read, d > 0); e != nil {
+			e.pend += d
+			if e.pend < 0 {
+				e.pend = 0
+			}
+			if e.held == 0 && e.pend == 0 {
+				e.mu = nil
+			}
+		}
+	}
+}
+
+// WriterWaiting / WriterIsWaiting model the writer preference of sync.RWMutex: while a task
+// waits in Lock, RLock does not succeed.
+//
+//go:norace
+func WriterWaiting(mu interface{}, d int) {
+	if rawLoad(&active) == 0 {
+		return
+	}
+	var free *lockEntry
+	for i := range writersWaiting {
+		e := &writersWaiting[i]
+		if e.mu == mu {
+			e.held += d
+			if e.held <= 0 {
+				e.mu, e.held = nil, 0
+			}
+			return
+		}
+		if e.mu == nil && free == nil {
+			free = e
+		}
+	}
+	if d > 0 && free != nil {
+		free.mu, free.held = mu, d
+	}
+}
+
+//go:norace
+func WriterIsWaiting(mu interface{}) bool {
+	if rawLoad(&active) == 0 {
+		return false
+	}
+	for i := range writersWaiting {
+		if e := &writersWaiting[i]; e.mu == mu && e.held > 0 {
+			return true
+		}
+	}
+	return false
 }
 
 // Yield is a scheduling point inserted by the instrumenter.
@@ -520,11 +661,13 @@ func Start(c *Config) {
 		stepCap = 1 << 40
 	}
 	Steps, SwLen, SwOverflow, OverBudget, Deadlock = 0, 0, 0, 0, 0
+	writersWaiting = [maxLockBook]lockEntry{}
 	TraceHash, SchedHash = 14695981039346656037, 14695981039346656037
 	hot, nchg, lowPrio = 0, 0, 0
 	for i := range done {
 		done[i], abortAt[i], apCount[i], noYield[i], lastSite[i], quantum[i], spinRun[i] = 0, 0, 0, 0, 0, 0, 0
-		lockDepth[i] = 0
+		lockDepth[i], pendDefer[i] = 0, 0
+		lockBook[i] = [maxLockBook]lockEntry{}
 		prio[i] = 0
 	}
 	if c.AbortTask >= 1 && c.AbortTask <= MaxTasks {
